@@ -15,7 +15,7 @@ else:
 inv["*"] = uni
 entry = [e for e in eng.entries if e.name == name][0]
 t = time.time()
-r = mrun.explore_entry(eng, entry, inv, "quick", t)
+r = mrun.explore_entry(eng, entry, inv, "quick", t, limit=int(os.environ.get("VERIF_UNIT_PATHS", "3")))
 print("paths", r["paths"], "wall", r["wall"], "oos", r["oos"], "cuts", r["cuts"])
 print("violated:", {c: len(k) for c, k in r["violated"].items()})
 for o in r["obligations"]:
